@@ -8,9 +8,8 @@ import Dashu.Model.Cross.Hash
   For every comparison the mirrored model is evaluated with the `coarse` oracle (bit-length bounds,
   never materialises `B^e`) and — unless an operand is too large to materialise — ALSO with the
   `noFilter` oracle (exact path only) and against the specification (`XVal.cmp` of the exact
-  values).  The three must agree (`!model-spec-mismatch` / `!oracle-dependence` otherwise), except
-  on the input classes of the recorded defects (`numCmpDefect`, `absCmpDefect`, the `M | den`
-  hash corner, `iN::MIN.abs_cmp`), where the REQUIRED value (the specification) is printed.
+  values).  The three must agree (`!model-spec-mismatch` / `!model-oracle-dependence` otherwise;
+  by the theorems of `Props/C14` they always do).
 -/
 namespace Dashu.Driver.Cross
 open Dashu.IO Dashu.Model.Cross Dashu.Driver
@@ -102,17 +101,14 @@ def optOrdStr : Option Ordering → String
   | none => "none"
   | some o => ordStr o
 
-/-- combine model (coarse oracle), model (noFilter oracle), spec; `defect` = recorded defect class -/
-def verdict (m : String) (m2 spec : Option String) (defect : Option String) : String :=
+/-- combine model (coarse oracle), model (noFilter oracle), spec -/
+def verdict (m : String) (m2 spec : Option String) : String :=
   match spec with
   | none => ok m ++ " #spec=skipped"
   | some s =>
     if m == s ∧ m2 == some s then ok m
-    else match defect with
-      | some site => ok s ++ " #defect=" ++ site ++ " #mirror=" ++ m
-      | none =>
-        if m2 != some m then ok m ++ " !model-oracle-dependence nofilter=" ++ (m2.getD "?") ++ " spec=" ++ s
-        else ok m ++ " !model-spec-mismatch spec=" ++ s
+    else if m2 != some m then ok m ++ " !model-oracle-dependence nofilter=" ++ (m2.getD "?") ++ " spec=" ++ s
+    else ok m ++ " !model-spec-mismatch spec=" ++ s
 
 def feedStr (v : Int) : String :=
   let u : Nat := (if v < 0 then v + (2 : Int) ^ 128 else v).toNat
@@ -134,8 +130,8 @@ def dispatch : Dispatch := fun _W op args =>
       if small x y then
         let m2 := (numPartialCmp Oracle.noFilter x y).map optOrdStr
         let spec := optOrdStr (XVal.cmp x.value y.value)
-        pure (verdict (optOrdStr m) m2 (some spec) (numCmpDefect x y))
-      else pure (verdict (optOrdStr m) none none none)
+        pure (verdict (optOrdStr m) m2 (some spec))
+      else pure (verdict (optOrdStr m) none none)
   | "numeq", [a, b] => do
     let x ← parseNum a; let y ← parseNum b
     match numEq Oracle.coarse x y with
@@ -144,18 +140,17 @@ def dispatch : Dispatch := fun _W op args =>
       if small x y then
         let m2 := (numEq Oracle.noFilter x y).map boolStr
         let spec := boolStr (XVal.cmp x.value y.value == some .eq)
-        pure (verdict (boolStr m) m2 (some spec) (numCmpDefect x y))
-      else pure (verdict (boolStr m) none none none)
+        pure (verdict (boolStr m) m2 (some spec))
+      else pure (verdict (boolStr m) none none)
   | "abscmp", [a, b] => do
     let x ← parseNum a; let y ← parseNum b
     if primSame x y then
       -- base/src/sign.rs: `self.abs().cmp(&rhs.abs())`
       let spec := optOrdStr (XVal.absCmp x.value y.value)
       match x, y with
-      | .pint t v, .pint _ w =>
-        match primIntAbsCmp t v w with
-        | some m => pure (verdict (ordStr m) (some (ordStr m)) (some spec) none)
-        | none => pure (ok spec ++ " #defect=prim-abs-min #mirror=overflow")
+      | .pint _ v, .pint _ w =>
+        let m := ordStr (primIntAbsCmp v w)
+        pure (verdict m (some m) (some spec))
       | _, _ =>
         if spec == "none" then none else pure (ok spec)
     else
@@ -165,17 +160,16 @@ def dispatch : Dispatch := fun _W op args =>
       if small x y then
         let m2 := (absCmp Oracle.noFilter x y).map ordStr
         let spec := optOrdStr (XVal.absCmp x.value y.value)
-        pure (verdict (ordStr m) m2 (some spec) (absCmpDefect x y))
-      else pure (verdict (ordStr m) none none none)
+        pure (verdict (ordStr m) m2 (some spec))
+      else pure (verdict (ordStr m) none none)
   | "abseq", [a, b] => do
     let x ← parseNum a; let y ← parseNum b
     let spec := boolStr (XVal.absCmp x.value y.value == some .eq)
     if primSame x y then
       match x, y with
-      | .pint t v, .pint _ w =>
-        match primIntAbsCmp t v w with
-        | some m => pure (verdict (boolStr (m == .eq)) (some (boolStr (m == .eq))) (some spec) none)
-        | none => pure (ok spec ++ " #defect=prim-abs-min #mirror=overflow")
+      | .pint _ v, .pint _ w =>
+        let m := boolStr (primIntAbsCmp v w == .eq)
+        pure (verdict m (some m) (some spec))
       | _, _ => pure (ok spec)
     else
     match x, y with
@@ -183,10 +177,10 @@ def dispatch : Dispatch := fun _W op args =>
     | .rbig n1 d1, .rbig n2 d2 =>
       -- `numerator.abs_eq && denominator ==` on canonical representations
       let m := boolStr (n1.natAbs == n2.natAbs && d1 == d2)
-      pure (verdict m (some m) (some spec) none)
+      pure (verdict m (some m) (some spec))
     | .relaxed n1 d1, .relaxed n2 d2 =>
       let m := boolStr (ratReprEq true n1 d1 n2 d2)
-      pure (verdict m (some m) (some spec) none)
+      pure (verdict m (some m) (some spec))
     | _, _ => pure (ok "nopair")
   | "ordcmp", [a, b] => do
     let x ← parseNum a; let y ← parseNum b
@@ -196,27 +190,18 @@ def dispatch : Dispatch := fun _W op args =>
       if small x y then
         let m2 := (ordCmp Oracle.noFilter x y).map ordStr
         let spec := optOrdStr (XVal.cmp x.value y.value)
-        pure (verdict (ordStr m) m2 (some spec) none)
-      else pure (verdict (ordStr m) none none none)
+        pure (verdict (ordStr m) m2 (some spec))
+      else pure (verdict (ordStr m) none none)
   | "numhash", [a] => do
     let x ← parseNum a
-    let m := numHashFeed x
-    let c := numHashFeedCanon x
-    if m == c then pure (ok (feedStr m))
-    else pure (ok (feedStr c) ++ " #defect=ratio-hash-M-divides-den #mirror=" ++ feedStr m)
+    pure (ok (feedStr (numHashFeed x)))
   | "hasheq", [a, b] => do
     let x ← parseNum a; let y ← parseNum b
     let m := numHashFeed x == numHashFeed y
-    let c := numHashFeedCanon x == numHashFeedCanon y
-    let inCorner := numHashFeed x != numHashFeedCanon x || numHashFeed y != numHashFeedCanon y
-    if small x y && XVal.cmp x.value y.value == some .eq then
-      -- REQUIRED: equal values feed the same sequence
-      if !c then pure (ok "false" ++ " !model-spec-mismatch spec=true")
-      else if m then pure (ok "true")
-      else if inCorner then pure (ok "true" ++ " #defect=ratio-hash-M-divides-den #mirror=false")
-      else pure (ok "false" ++ " !model-spec-mismatch spec=true")
-    else if m == c then pure (ok (boolStr m))
-    else pure (ok (boolStr c) ++ " #defect=ratio-hash-M-divides-den #mirror=" ++ boolStr m)
+    -- SPEC: equal values feed the same sequence (`num_hash_value`)
+    if small x y && XVal.cmp x.value y.value == some .eq && !m then
+      pure (ok "false" ++ " !model-spec-mismatch spec=true")
+    else pure (ok (boolStr m))
   | "fdecode", [a] => do
     let x ← parseNum a
     match x with
